@@ -399,3 +399,39 @@ func TestInterpolateParamsFalseSkips(t *testing.T) {
 		}
 	}
 }
+
+// An empty, non-NULL string or binary value is a non-nil empty []byte in both protocols (never nil, which is NULL).
+func TestEmptyValuesAreNotNull(t *testing.T) {
+	s := newTestServer(t)
+	db := openDB(t, s, "")
+	mustExec(t, db, "CREATE TABLE e (id INT PRIMARY KEY, vb VARBINARY(8), bl BLOB, vc VARCHAR(8), tx TEXT)")
+	mustExec(t, db, "INSERT INTO e VALUES (1, ?, ?, ?, ?)", []byte{}, []byte{}, "", "")
+	mustExec(t, db, "INSERT INTO e VALUES (2, '', x'', '', '')")
+	mustExec(t, db, "INSERT INTO e VALUES (3, NULL, NULL, NULL, NULL)")
+	for _, args := range [][]interface{}{nil, {int64(0)}} {
+		q := "SELECT vb, bl, vc, tx FROM e WHERE id < 3"
+		if args != nil {
+			q = "SELECT vb, bl, vc, tx FROM e WHERE id < 3 AND id > ?"
+		}
+		for _, r := range rawQuery(t, db, q, args...) {
+			for i, v := range r.vals {
+				b, ok := v.([]byte)
+				if !ok || b == nil || len(b) != 0 {
+					t.Errorf("args=%v column %s = %#v, want non-nil empty []byte", args, r.cols[i], v)
+				}
+			}
+		}
+	}
+	var vb interface{}
+	if err := db.QueryRow("SELECT vb FROM e WHERE id = ?", 1).Scan(&vb); err != nil || vb == nil {
+		t.Fatalf("empty VARBINARY scanned as %#v (%v)", vb, err)
+	}
+	if err := db.QueryRow("SELECT vb FROM e WHERE id = ?", 3).Scan(&vb); err != nil || vb != nil {
+		t.Fatalf("NULL VARBINARY scanned as %#v (%v)", vb, err)
+	}
+	wantRows(t, queryStrings(t, db, "SELECT id FROM e WHERE vb IS NULL"), "3")
+	wantRows(t, queryStrings(t, db, "SELECT id FROM e WHERE vb = ''"), "1;2")
+	if snap := s.Snapshot("e")["e"]; snap[0]["vb"] != "0x" || snap[2]["vb"] != nil {
+		t.Fatalf("snapshot: %v", snap)
+	}
+}
